@@ -9,6 +9,9 @@ The methods are SYMBOLICALLY EVALUATED into a normal form, so that harmless rewr
     that expression and is inlined (`data = event.data`, `qual = event.func_qualifier`, `start = DgbFuncQual.DBG_FUNC_START.value`).
     Checked: a variable the expression reads is not rebound between the definition and a use, and a loop body does not
     re-define it (otherwise the use becomes `.unsupported`);
+  * a temporary that is assigned once and read once, by the very next statement, before anything else in that statement
+    that can raise or call (`text = path.replace(…)` / `yield Vnode(l, v, text.decode())`,
+    `vnodes = self.parse_vnodes(events)` / `return vnodes[0]`) is inlined: the order of evaluation does not change;
   * `path += x` and `path = path + x` are both `assign path (add path x)`;
   * `not` / `or` / `and` / `!=` in an `if` condition are resolved into (nested) `if`s: a conditional is always
     `ite c a b`, never `ite (not c) b a`; `a & <literal>` and `a == <literal>` keep the literal on the right;
@@ -48,6 +51,43 @@ def is_pure(e):
     if k == 'band':
         return is_pure(e[1]) and is_pure(e[2])
     return False
+
+
+RAISING = ('index', 'decode', 'call', 'list', 'listComp', 'unsupported', 'not', 'or', 'and')
+HEADS = {'ret': 1, 'ite': 1, 'assign': 2, 'append': 2, 'forIn': 2, 'yield': 1}
+
+
+def first_effect(x, target):
+    """Walking `x` in evaluation order: 'hit' when `target` (an object, by identity) is met before any operation that can
+    raise or call, 'other' when such an operation comes first, None when neither occurs."""
+    if x is target:
+        return 'hit'
+    if x[0] == 'listComp':
+        r = first_effect(x[2], target)
+        if r:
+            return r
+        return 'other'                      # the condition runs once per element
+    for c in x[1:]:
+        if isinstance(c, tuple):
+            r = first_effect(c, target)
+            if r:
+                return r
+    return 'other' if x[0] in RAISING else None
+
+
+def count_obj(x, target):
+    if x is target:
+        return 1
+    return sum(count_obj(c, target) for c in x[1:] if isinstance(c, tuple))
+
+
+def impure_kind(e):
+    """`e` holds an operation that is not a pure one (whatever its `.unsupported` parts turn out to be)"""
+    if e[0] == 'unsupported':
+        return False
+    if e[0] not in LITERALS + ('var', 'field', 'sliceFrom', 'band'):
+        return True
+    return any(impure_kind(x) for x in e[1:] if isinstance(x, tuple))
 
 
 class Restart(Exception):
@@ -245,7 +285,18 @@ class FnTranslator:
             env.stale_readers(name)
             env.m[name] = e
             return nxt(env)
-        if name in self.candidates and name not in self.not_alias:
+        if name in self.single_use and name not in params and not is_pure(e) and not has_unsupported(e):
+            # `t = E` then a statement that reads `t` once, first: E is evaluated at the same moment either way
+            env2 = env.copy()
+            env2.stale_readers(name)
+            env2.m[name] = e
+            follow = nxt(env2)
+            head = follow[HEADS[follow[0]]] if follow[0] in HEADS else None
+            if head is not None and first_effect(head, e) == 'hit' and count_obj(follow, e) == 1:
+                return follow
+            self.single_use.discard(name)
+            raise Restart()
+        if name in self.candidates and name not in self.not_alias and impure_kind(e):
             self.not_alias.add(name)            # one of its assignments is not a pure expression: it is a variable
             raise Restart()
         self.bind(name, env)
@@ -334,6 +385,11 @@ class FnTranslator:
             if isinstance(n, ast.Name) and isinstance(n.ctx, (ast.Store, ast.Del)):
                 counts[n.id] = counts.get(n.id, 0) + 1
         self.candidates = {n for n in other if counts[n] == plain.get(n, 0) and n not in params}
+        loads = {}
+        for n in inner:
+            if isinstance(n, ast.Name) and isinstance(n.ctx, ast.Load):
+                loads[n.id] = loads.get(n.id, 0) + 1
+        self.single_use = {n for n in self.candidates if counts[n] == 1 and loads.get(n, 0) == 1}
         while True:
             self.order = []
             try:
